@@ -56,7 +56,7 @@ class Check(FormulaCheck):
             'with counts 0..len+5 and negatives, (old,new,k) with non-self-overlapping old, item lists with blanks (flat and nested). '
             'non-trivial = result compared with the model; distinct = distinct (function/identity, arguments).')
     ASSUMPTIONS = ('characters whose case mapping changes length are outside the alphabet; counts are integers, except that negative fractions are negative counts too',
-                   'TEXTJOIN/CONCATENATE items are text or blank; empty text is text and is not used together with ignore_empty=TRUE',
+                   'TEXTJOIN items are text or blank, CONCATENATE items also whole numbers (spelled by their decimal digits); empty text is text and is not used together with ignore_empty=TRUE',
                    'PROPER upper-cases exactly after a non-letter is asserted on ASCII-only strings; CLEAN need not remove U+007F')
 
     def plan(self, tier, seed):
@@ -230,6 +230,20 @@ class Check(FormulaCheck):
         self.expect('C15/CONCATENATE' + (':blank-item' if None in items else ''), g == exp, items=items, got=g, expected=exp, separate_args=True)
         g = self.ev('CONCAT(%s)' % names)
         self.expect('C15/CONCATENATE' + (':blank-item' if None in items else ''), g == exp, items=items, got=g, expected=exp, fn='CONCAT')
+        # a whole number among the items has one spelling - its decimal digits - and takes its place in order
+        mixed = [rnd.choice([0, 1, -3, 42, 10 ** 15, 2 ** 63]) if (x is not None and rnd.random() < 0.3) else x for x in items]
+        if any(isinstance(x, int) for x in mixed):
+            exp = ''.join('' if x is None else str(x) for x in mixed)
+            for i, x in enumerate(mixed):
+                self.e.bind(**{hx.varname(i, 'it'): x})
+            for fn in ('CONCATENATE', 'CONCAT'):
+                g = self.ev('%s(%s)' % (fn, names))
+                self.expect('C15/CONCATENATE:whole-number-item', g == exp, items=mixed, got=g, expected=exp, fn=fn)
+            lit = ','.join('""' if x is None else (str(x) if isinstance(x, int) else hx.varname(i, 'it')) for i, x in enumerate(mixed))
+            g = self.ev('CONCATENATE(%s)' % lit)
+            self.expect('C15/CONCATENATE:whole-number-item', g == exp, items=mixed, got=g, expected=exp, literal=True)
+            g = self.ev('CONCATENATE(v_a)', v_a=[mixed[:1], mixed[1:]])
+            self.expect('C15/CONCATENATE:whole-number-item', g == exp, items=mixed, got=g, expected=exp, nested=True)
         rec.nt(('join', tuple(items), d))
 
     def c_charcode(self, spec, rec):
